@@ -10,7 +10,7 @@ IMPORTS = 'Base Units Contents Container Dilute Solve Plate Prog'
 
 def tol_scale(prog):
     """enzymes at low density turn 1e-10 activity units of rounding into 1e-7 uL of volume (DESIGN 4.4)"""
-    k = 1.0
+    k = float(prog.get('tol_k', 1.0))      # coarser storage units (configuration variants): ten decimals of a mmol are 1e-7 umol
     for s in prog['subs']:
         if s['kind'] == 'Enzyme':
             k = max(k, 1000.0 / float(s['dens']))
@@ -164,6 +164,16 @@ def replay(path, oracle, model_fn='showRun', imports=IMPORTS):
         print(json.dumps(r, indent=1)[:3000])
         print('no program in this replay file (proof gate / model evaluation break): nothing to run on the implementation')
         return 1
+    if r.get('configuration'):
+        print('configuration:', r['configuration'])
+        obs = run_variant([prog], parse_overrides(r['configuration']), 'replay', factory_density=bool(r.get('factory_density')))[0]
+        for i, (op, o) in enumerate(zip(prog['ops'], obs)):
+            print(i, json.dumps(op)[:200], '->', 'ok' if o['ok'] else o['exc'] + ': ' + o.get('msg', ''))
+        fails = oracle(prog, obs, None)
+        for f in fails[:5]:
+            print('PROPERTY FAILS at op', f[0], ':', f[1])
+        print('property', 'FAILS' if fails else 'HOLDS', 'on this input under this configuration')
+        return 1 if fails else 0
     obs, im = rerun(prog)
     for i, (op, o) in enumerate(zip(prog['ops'], obs)):
         print(i, json.dumps(op)[:200], '->', 'ok' if o['ok'] else o['exc'] + ': ' + o.get('msg', ''))
@@ -234,14 +244,23 @@ def write_config(d, overrides):
         f.write(yaml.safe_dump(base))
 
 
-def run_variant(progs, overrides, tag, factory_density=False):
-    """run programs in a separate process under pyplate.yaml + overrides (storage units must stay umol / uL so that the dumps keep
-    their meaning); returns the observations per program"""
+def rescale_dump(dump, enz, kv, km):
+    for c in containers_of(dump):
+        c['vol'] = c['vol'] * kv
+        if c.get('max') is not None:
+            c['max'] = c['max'] * kv
+        c['cont'] = {k: (a if k in enz else a * km) for k, a in c['cont'].items()}
+
+
+def run_job(progs, rprogs, overrides, tag, factory_density=False):
+    """run histories (progs) and recipes (rprogs) in a separate process under pyplate.yaml + overrides; dumps taken under other
+    storage units are rescaled to uL / umol so that the oracles read them as usual.  Returns (observations per history,
+    [(bake outcome, query results)] per recipe)"""
     import subprocess, shutil
     d = os.path.join(common.BUILD, 'cfg', tag)
     shutil.rmtree(d, ignore_errors=True)
     write_config(d, overrides)
-    json.dump({'progs': progs, 'recipes': [], 'factory_density': factory_density}, open(os.path.join(d, 'job.json'), 'w'))
+    json.dump({'progs': progs, 'recipes': rprogs, 'factory_density': factory_density}, open(os.path.join(d, 'job.json'), 'w'))
     env = dict(os.environ, PYPLATE_CONFIG=d)
     p = subprocess.run(['/venv/bin/python', os.path.join(common.VERIF, 'harness', 'cfgworker.py'), os.path.join(d, 'job.json'), os.path.join(d, 'out.json')],
                        env=env, stdout=subprocess.PIPE, stderr=subprocess.STDOUT, text=True, timeout=1200)
@@ -250,10 +269,42 @@ def run_variant(progs, overrides, tag, factory_density=False):
     from props import C18
     out = C18.dec(json.load(open(os.path.join(d, 'out.json'))))
     shutil.rmtree(d, ignore_errors=True)
-    return out['progs']
+    rec = [(r['bake'], r['queries']) for r in out['recipes']]
+    if 'volume_storage_unit' in overrides or 'moles_storage_unit' in overrides:
+        kv = dsl.PFX[overrides.get('volume_storage_unit', 'uL')[:-1]][1] / dsl.PFX['u'][1]
+        km = dsl.PFX[overrides.get('moles_storage_unit', 'umol')[:-3]][1] / dsl.PFX['u'][1]
+        for prog, obs in zip(progs, out['progs']):
+            enz = {s['id'] for s in prog['subs'] if s['kind'] == 'Enzyme'}
+            for o in obs:
+                if o.get('ok'):
+                    for _, dump in o['out']:
+                        rescale_dump(dump, enz, kv, km)
+        for prog, (bake, _) in zip(rprogs, rec):
+            enz = {s['id'] for s in prog['subs'] if s['kind'] == 'Enzyme'}
+            if bake[0] == 'ok':
+                for dump in bake[1].values():
+                    rescale_dump(dump, enz, kv, km)
+    return out['progs'], rec
+
+
+def run_variant(progs, overrides, tag, factory_density=False):
+    return run_job(progs, [], overrides, tag, factory_density)[0]
+
+
+def parse_overrides(d):
+    """the configuration stored in a replay file (values written with str) back to YAML values"""
+    out = {}
+    for k, v in (d or {}).items():
+        try:
+            out[k] = float(v)
+        except (TypeError, ValueError):
+            out[k] = v
+    return out
 
 
 VARIANTS = [('display mL / mmol', {'volume_display_unit': 'mL', 'moles_display_unit': 'mmol'}, None),
+            ('storage mL / umol', {'volume_storage_unit': 'mL'}, None),
+            ('storage uL / mmol', {'moles_storage_unit': 'mmol'}, None),
             ('default densities 2 g/mL and 50 U/mL', {'default_solid_density': 2.0, 'default_enzyme_density': 50.0}, ('2', '50')),
             ('solids and enzymes without volume (default densities inf)', {'default_solid_density': float('inf'), 'default_enzyme_density': float('inf')}, ('inf', 'inf'))]
 
@@ -264,8 +315,13 @@ def variants(chk, gens, oracle, tag, limit=12):
     n = 0
     for name, overrides, dens in VARIANTS:
         progs = []
+        storage = 'volume_storage_unit' in overrides or 'moles_storage_unit' in overrides
         for g in gens[:limit]:
+            if storage and getattr(g, 'scale', 1) < 1e-3:
+                continue      # nanomole-scale histories have two significant digits left under a coarser storage unit
             prog = json.loads(json.dumps(g.prog() if hasattr(g, 'prog') else g))
+            if 'volume_storage_unit' in overrides or 'moles_storage_unit' in overrides:
+                prog['tol_k'] = 1000.0
             if dens:
                 for sd in prog['subs']:
                     if sd['kind'] == 'Solid':
